@@ -18,7 +18,7 @@ func checkC12(c *an.Ctx) {
 	c.Rule("C12.1", "Cancel protocol (E8): (a) everything TaskRunner.Cancel can block on is a WaitGroup wait whose every Add registers a Done on all paths, or a short critical section; (b) a channel held in a TaskRunner field is closed only under a once-guard; (c) Cancel's effects are guarded by !canceling under the exclusive lock; (d) Run tests the cancelled context, under the lock that also covers its registration, before anything that executes a command, and returns a non-nil error on that branch")
 	c.Rule("C12.2", "commands run under the runner context (E5): every Execute of the before/command/after phases receives TaskRunner.ctx; Execute hands it, or a WithTimeout child of it, to the interpreter; ctx and cancelFunc come from one WithCancel pair assigned only in the constructor")
 	c.Rule("C12.3", "scheduler (E3/E4): Scheduler.Cancel stores the flag before cancelling the runner; the flag is loaded on every pass before any launch; a cancelled run still waits for its stages")
-	c.Rule("C12.4", "an interrupted command is fatal (E2): the rows 'not an exit status' of the job-walk table mark the task errored and return the error, with and without allow_failure; a condition command, whose non-zero exit means skip, runs under a context cancellation cannot reach (an interrupted condition would read as not-met and the interrupted task as skipped)")
+	c.Rule("C12.4", "an interrupted command is fatal (E2): the rows 'not an exit status' of the job-walk table mark the task errored and return the error, with and without allow_failure; a condition command, whose non-zero exit means skip, runs under a context cancellation cannot reach (an interrupted condition would read as not-met and the interrupted task as skipped); wherever a function under Run compares ctx.Err() with nil, no return of a nil error is reachable from the cancelled side before another command is executed (an early exit from the command loop that falls into the success return reports an interrupted task as succeeded)")
 	c.Rule("C12.6", "one runner, one cancellation state (E4): no whole-value copy of a TaskRunner (or of the object that holds its mutex, flag and WaitGroup) is made anywhere in the module — a copy shares the context but has a mutex, a flag and a WaitGroup of its own, so runs started through it are not waited for by Cancel on the original")
 	c.Rule("C12.5", "how a running command is stopped (library summary, option table): every interp.New in the module is given options from the closed set StdIO / Env / Dir / Params / OpenHandler, and an ExecHandler only if it is interp.DefaultExecHandler with a positive constant grace period — the library default interrupts the command, lets it stop its own children and kills it after the grace period; with a non-positive period the command is killed outright, its children are orphaned holding the output pipes, and the interpreter (and with it Run and Cancel) waits for them")
 	c.Summaries = append(c.Summaries, "mvdan.cc/sh/v3@v3.1.1 interp.DefaultExecHandler(d): on context cancellation sends os.Interrupt, then Kill after d; with d <= 0 sends Kill at once (read in interp/handler.go); interp.New installs DefaultExecHandler(2s)", "os/exec: a Stdin that is not an *os.File is copied to the child by a goroutine, and Cmd.Wait returns only after that goroutine has finished (package documentation of Cmd.Stdin)")
@@ -66,6 +66,7 @@ func checkC12(c *an.Ctx) {
 	cancelIdempotent(c, r, "C12.1")
 	// (d) the gate in Run
 	runGate(c, r, "C12.1")
+	cancelTestsAreFatal(c, r, "C12.4")
 
 	// C12.2
 	runnerContext(c, r, "C12.2")
@@ -874,5 +875,81 @@ func conditionsNotInterrupted(c *an.Ctx, rule string) {
 	}
 	if n == 0 {
 		c.Und(rule, "conditions:context", token.NoPos, "neither the task's nor the stage's condition command was found")
+	}
+}
+
+// cancelTestsAreFatal: wherever a function under Run asks a context whether it is
+// cancelled (ctx.Err() compared with nil), the cancelled side reports an error: no
+// return reachable from it — before a command is executed again, whose interruption
+// the job-walk table makes fatal — gives a constant nil error. (An early exit that
+// leaves the command loop on cancellation and falls into the success return reports
+// an interrupted task as succeeded.)
+func cancelTestsAreFatal(c *an.Ctx, r *runnerRoles, rule string) {
+	n := 0
+	for _, fn0 := range r.scope {
+		for _, fn := range an.WithAnon(fn0) {
+			ei := an.ErrResultIndex(fn.Signature)
+			if ei < 0 || fn.Blocks == nil {
+				continue
+			}
+			for _, b := range fn.Blocks {
+				if len(b.Instrs) == 0 {
+					continue
+				}
+				iff, ok := b.Instrs[len(b.Instrs)-1].(*ssa.If)
+				if !ok {
+					continue
+				}
+				x, eq, isNil := an.NilTest(iff.Cond)
+				if !isNil {
+					continue
+				}
+				call, ok := an.Resolve(x).(*ssa.Call)
+				if !ok || !call.Call.IsInvoke() || call.Call.Method.Name() != "Err" || !an.TypeIs(call.Call.Value.Type(), "context", "Context") {
+					continue
+				}
+				n++
+				// the successor taken when Err() is non-nil
+				start := b.Succs[0]
+				if eq {
+					start = b.Succs[1]
+				}
+				seen := map[*ssa.BasicBlock]bool{}
+				work := []*ssa.BasicBlock{start}
+				var bad *ssa.Return
+				for len(work) > 0 && bad == nil {
+					blk := work[len(work)-1]
+					work = work[:len(work)-1]
+					if seen[blk] {
+						continue
+					}
+					seen[blk] = true
+					barrier := false
+					for _, in := range blk.Instrs {
+						if _, isExec := isExecCall(in); isExec {
+							barrier = true
+							break
+						}
+						if ret, ok := in.(*ssa.Return); ok {
+							if an.IsNilConst(an.RetVal(ret, ei)) {
+								bad = ret
+							}
+						}
+					}
+					if !barrier {
+						work = append(work, blk.Succs...)
+					}
+				}
+				key := an.Short(fn) + ":cancelled-test"
+				if bad != nil {
+					c.Bad(rule, key, bad.Pos(), "%s tests ctx.Err() and, on the cancelled side, reaches a return of a nil error without executing another command: an interrupted or not yet started task reports success", an.Short(fn))
+				} else {
+					c.OK(rule, key, iff.Pos(), "the cancelled side of the ctx.Err() test returns an error (or goes on to a command whose interruption is fatal)")
+				}
+			}
+		}
+	}
+	if n == 0 {
+		c.OK(rule, "runner:cancelled-tests", r.run.Pos(), "no function under Run besides the gate compares ctx.Err() with nil")
 	}
 }
